@@ -1,6 +1,7 @@
 // Module-level streams (FFT64 / NTT120 pipelines): independent integer oracles for C01, C02, C03 (module
 // level), plus the cross-cutting observations C18 (sources / prepared objects / tables unchanged), C13 (in-place
 // inverse DFT), C15 (scratch and output pre-fill independence), C11 (exact-size buffers: run under ASan).
+#include <cstdarg>
 #include "hcommon.h"
 extern "C" {
 #include "spqlios/reim/reim_fft.h"
@@ -108,8 +109,13 @@ static std::string check_product(const char* what, uint64_t n, const int64_t* go
   return "ok";
 }
 
-static void nop_lines(Out& out) {
-  fprintf(out.ops, "ca nop");
+static void nop_lines(Out& out, const char* fmt, ...) {
+  char buf[300];
+  va_list ap;
+  va_start(ap, fmt);
+  vsnprintf(buf, sizeof buf, fmt, ap);
+  va_end(ap);
+  fprintf(out.ops, "ca nop %s", buf);
   fprintf(out.real, "nop");
 }
 
@@ -204,7 +210,7 @@ STREAM(md_prod) {
           }
           out.count(variant == 1 ? "idft_inplace" : (variant == 2 ? "idft_tmp_a" : "idft_separate"));
         }
-        nop_lines(out);
+        nop_lines(out, "md_prod n=%lu mask=%d class=%d abits=%d bbits=%d seedword=%lu", (unsigned long)n, mask, cls, abits, bbits, (unsigned long)(rng.s & 0xffffff));
         out.endcase(verdict);
         out.count("products");
         out.count(std::string("mask_") + std::to_string(mask));
@@ -285,8 +291,7 @@ static void vmp_case(Out& out, Rng& rng, uint64_t n, int mask, uint64_t nrows, u
         break;
       }
   }
-  fprintf(out.ops, "ca nop");
-  fprintf(out.real, "nop");
+  nop_lines(out, "md_vmp n=%lu mask=%d nrows=%lu ncols=%lu a_size=%lu res_size=%lu a_sl=%lu", (unsigned long)n, mask, (unsigned long)nrows, (unsigned long)ncols, (unsigned long)a_size, (unsigned long)res_size, (unsigned long)a_sl);
   out.endcase(verdict);
   out.count("vmp_cases");
   if (!a_size || !res_size) out.count("vmp_zero_size");
@@ -347,9 +352,120 @@ STREAM(md_ntt) {
               break;
             }
           }
-        fprintf(out.ops, "ca nop");
-        fprintf(out.real, "nop");
+        nop_lines(out, "md_ntt n=%lu class=%d variant=%d a_size=%lu dft_size=%lu res_size=%lu a_sl=%lu", (unsigned long)n, cls, variant, (unsigned long)a_size, (unsigned long)dsz, (unsigned long)rsz, (unsigned long)a_sl);
         out.endcase(verdict);
         out.count("ntt_roundtrips");
       }
+}
+
+// ------------------------------------------------------------------------------------------------------
+// md_model: the same pipelines with full op lines for the Lean module-level model (bit-exact correspondence:
+// prepared objects, DFT-space bit patterns and final integers), plus the integer oracles.
+extern "C" {
+#include "spqlios/reim/reim_fft_internal.h"
+#include "spqlios/reim/reim_fft_private.h"
+}
+static int ilog2u(size_t m) { int k = 0; while (((size_t)1 << k) < m) k++; return k; }
+static size_t r_bfs_len(size_t m) {
+  size_t n = 0, mm = m;
+  if (ilog2u(m) & 1) { n += 2; mm /= 2; }
+  while (mm > 16) { n += (m / mm) * 4; mm /= 4; }
+  return n + m;
+}
+static size_t r_rec_len(size_t m) { return m <= 2048 ? r_bfs_len(m) : 2 + 2 * r_rec_len(m / 2); }
+static size_t r_table_len(size_t m) { return m == 1 ? 0 : m <= 16 ? m : r_rec_len(m); }
+
+extern "C" {
+void reim_from_znx64_bnd50_fma(const REIM_FROM_ZNX64_PRECOMP* precomp, void* r, const int64_t* x);
+void reim_to_znx64_avx2_bnd63_fma(const REIM_TO_ZNX64_PRECOMP* precomp, int64_t* r, const void* x);
+void reim_to_znx64_avx2_bnd50_fma(const REIM_TO_ZNX64_PRECOMP* precomp, int64_t* r, const void* x);
+}
+
+static void put_cfg(Out& out, const char* op, MODULE* mod, const char* shape) {
+  const uint64_t m = mod->m;
+  auto* pf = mod->mod.fft64.p_fft;
+  auto* pi = mod->mod.fft64.p_ifft;
+  int fftFma = (void*)pf->function == (void*)reim_fft_avx2_fma;
+  int ifftFma = (void*)pi->function == (void*)reim_ifft_avx2_fma;
+  int fromB = (void*)mod->mod.fft64.p_conv->function == (void*)reim_from_znx64_bnd50_fma;
+  void* tf = (void*)mod->mod.fft64.p_reim_to_znx->function;
+  int toV = tf == (void*)reim_to_znx64_avx2_bnd63_fma ? 2 : (tf == (void*)reim_to_znx64_avx2_bnd50_fma ? 1 : 0);
+  int mulFma = (void*)mod->mod.fft64.mul_fft->function == (void*)reim_fftvec_mul_fma;
+  int addmulFma = (void*)mod->mod.fft64.p_addmul->function == (void*)reim_fftvec_addmul_fma;
+  int vmpAvx = (void*)mod->func.vmp_apply_dft_to_dft == (void*)fft64_vmp_apply_dft_to_dft_avx;
+  fprintf(out.ops, "md %s %" PRIu64 " %d %d %d %d %d %d %d %s | ", op, mod->nn, fftFma, ifftFma, fromB, toV, mulFma, addmulFma, vmpAvx, shape);
+  put_f64bits(out.ops, pf->powomegas, r_table_len(m));
+  fprintf(out.ops, " | ");
+  put_f64bits(out.ops, pi->powomegas, r_table_len(m));
+}
+
+STREAM(md_model) {
+  std::vector<uint64_t> dims = thorough ? std::vector<uint64_t>{2, 4, 8, 16, 32, 64, 128, 256, 1024, 4096} : std::vector<uint64_t>{2, 4, 8, 16, 32, 64, 256};
+  for (uint64_t n : dims)
+    for (int mask = 0; mask < 2; mask++) {
+      MODULE* mod = get_module(n, 0, mask);
+      int lg = ilog2u(n);
+      for (int cls = 0; cls < (n <= 64 ? 6 : 2); cls++) {
+        // small single product
+        int abits = 1 + (int)rng.below(16), bbits = 50 - abits - lg - 1;
+        if (bbits > 34) bbits = 34;
+        if (bbits < 1) bbits = 1;
+        std::vector<int64_t> a, b, r(n);
+        gen_pair(rng, cls, n, a, b, abits, bbits);
+        std::vector<uint8_t> tmp(znx_small_single_product_tmp_bytes(mod) + 8, 0xA5);
+        znx_small_single_product(mod, r.data(), a.data(), b.data(), tmp.data());
+        put_cfg(out, "small", mod, "");
+        fprintf(out.ops, " | "); put_i64s(out.ops, a.data(), n);
+        fprintf(out.ops, " | "); put_i64s(out.ops, b.data(), n);
+        put_i64s(out.real, r.data(), n);
+        out.endcase(check_product("znx_small_single_product", n, r.data(), a, b));
+        out.count("small");
+        // svp + idft
+        uint64_t asz = rng.below(4), rsz = rng.below(4), asl = n + rng.below(3);
+        std::vector<int64_t> vin((asz ? asz : 1) * asl, 0);
+        for (uint64_t i = 0; i < asz; i++) for (uint64_t j = 0; j < n; j++) vin[i * asl + j] = rng.sbits(bbits);
+        std::vector<double> ppol(n), dft(rsz * n + 1);
+        svp_prepare(mod, (SVP_PPOL*)ppol.data(), a.data());
+        svp_apply_dft(mod, (VEC_ZNX_DFT*)dft.data(), rsz, (SVP_PPOL*)ppol.data(), vin.data(), asz, asl);
+        std::vector<int64_t> big(rsz * n + 1);
+        std::vector<double> dcopy(dft);
+        vec_znx_idft_tmp_a(mod, (VEC_ZNX_BIG*)big.data(), rsz, (VEC_ZNX_DFT*)dcopy.data(), rsz);
+        char shape[100];
+        snprintf(shape, sizeof shape, "%" PRIu64 " %" PRIu64 " %" PRIu64, rsz, asz, asl);
+        put_cfg(out, "svp", mod, shape);
+        fprintf(out.ops, " | "); put_i64s(out.ops, a.data(), n);
+        fprintf(out.ops, " | "); put_i64s(out.ops, vin.data(), asz * asl);
+        put_f64bits(out.real, dft.data(), rsz * n);
+        fprintf(out.real, " | ");
+        put_i64s(out.real, big.data(), rsz * n);
+        out.endcase("ok");
+        out.count("svp");
+      }
+      // vmp: a few shapes per dimension (small integers)
+      for (int t = 0; t < (n <= 64 ? 6 : 2); t++) {
+        uint64_t nrows = 1 + rng.below(3), ncols = 1 + rng.below(4), asz = rng.below(4), rsz = rng.below(5), asl = n + rng.below(2);
+        std::vector<int64_t> mat(nrows * ncols * n), av((asz ? asz : 1) * asl, 0);
+        for (auto& x : mat) x = rng.sbits(8);
+        for (uint64_t i = 0; i < asz; i++) for (uint64_t j = 0; j < n; j++) av[i * asl + j] = rng.sbits(8);
+        std::vector<double> pmat(nrows * ncols * n), res(rsz * n + 1);
+        std::vector<uint8_t> t1(vmp_prepare_contiguous_tmp_bytes(mod, nrows, ncols) + 8, 0x5A), t2(vmp_apply_dft_tmp_bytes(mod, rsz, asz, nrows, ncols) + 8, 0x5A);
+        vmp_prepare_contiguous(mod, (VMP_PMAT*)pmat.data(), mat.data(), nrows, ncols, t1.data());
+        vmp_apply_dft(mod, (VEC_ZNX_DFT*)res.data(), rsz, av.data(), asz, asl, (VMP_PMAT*)pmat.data(), nrows, ncols, t2.data());
+        std::vector<double> rcopy(res);
+        std::vector<int64_t> big(rsz * n + 1);
+        vec_znx_idft_tmp_a(mod, (VEC_ZNX_BIG*)big.data(), rsz, (VEC_ZNX_DFT*)rcopy.data(), rsz);
+        char shape[160];
+        snprintf(shape, sizeof shape, "%" PRIu64 " %" PRIu64 " %" PRIu64 " %" PRIu64 " %" PRIu64, nrows, ncols, asz, asl, rsz);
+        put_cfg(out, "vmp", mod, shape);
+        fprintf(out.ops, " | "); put_i64s(out.ops, mat.data(), mat.size());
+        fprintf(out.ops, " | "); put_i64s(out.ops, av.data(), asz * asl);
+        put_f64bits(out.real, pmat.data(), pmat.size());
+        fprintf(out.real, " | ");
+        put_f64bits(out.real, res.data(), rsz * n);
+        fprintf(out.real, " | ");
+        put_i64s(out.real, big.data(), rsz * n);
+        out.endcase("ok");
+        out.count("vmp");
+      }
+    }
 }
